@@ -442,6 +442,9 @@ func visitInstr(fr *frame, instr ssa.Instruction) continuation {
 		}
 
 	case *ssa.Lookup:
+		if m, ok := fr.get(instr.X).(*omap); ok && m != nil {
+			fr.raceRead(m)
+		}
 		fr.env[instr] = lookup(fr, instr, fr.get(instr.X), fr.get(instr.Index))
 
 	case *ssa.MapUpdate:
@@ -769,42 +772,108 @@ func (c *chanObj) recv(fr *frame, elem types.Type) (value, bool) {
 	panic(engineAbort{"UNSUPPORTED", "receive on empty open channel under the inline goroutine schedule (would block) in " + fr.fn.String()})
 }
 
-// raceWrite is a lockset (Eraser-style) check for write-write races among the goroutines a piece of
-// code spawns, under the inline schedule: every `go` body gets an id; a memory cell written by two
-// different goroutine bodies with no common mutex held is a data race of the real program, whatever
-// order the scheduler picks (sibling goroutines are not ordered by anything the check ignores except
-// channel hand-overs, which the code under test does not use for ownership transfer).  Writes by the
-// spawning code itself are not tracked (they are ordered by go / WaitGroup.Wait).  Reported as the
-// panic-class violation RACE and confirmed by replaying the path natively under the race detector.
-func (fr *frame) raceWrite(addr interface{}) {
+// raceWrite / raceRead are a lockset (Eraser-style) check for data races among the goroutines a
+// piece of code spawns, under the inline schedule.  Every `go` body gets an id (the spawning code is
+// id 0); accesses made by functions of the code under test and its libraries (not by the harness-side
+// packages under zzverif/, whose fake API server serialises itself with a mutex) to a memory cell or a
+// map are recorded per goroutine with the set of mutexes held.  Two accesses to the same cell by
+// different goroutines, at least one of them a write, with no common mutex held, are a data race of
+// the real program whatever order the scheduler picks: sibling goroutines are ordered by nothing, and
+// the spawning code is ordered with a goroutine only before its `go` statement (such accesses are never
+// compared: a goroutine body runs at its `go` statement, so only what the spawner does afterwards meets
+// its records) and after the sync.WaitGroup.Wait that joins it (Wait drops all records).  Channel
+// hand-overs are not modelled as ordering (the code under test does not use them to transfer
+// ownership).  Reported as the panic-class violation RACE and confirmed by replaying the path natively
+// under the race detector.
+func (fr *frame) raceWrite(addr interface{}) { fr.raceAccess(addr, true) }
+func (fr *frame) raceRead(addr interface{})  { fr.raceAccess(addr, false) }
+
+func (fr *frame) raceAccess(addr interface{}, write bool) {
 	c := fr.i.ctx
-	if len(c.gidStack) == 0 || addr == nil {
+	if addr == nil || c.nextGid == 0 {
+		return // no goroutine was spawned on this path yet
+	}
+	gid := 0
+	if n := len(c.gidStack); n > 0 {
+		gid = c.gidStack[n-1]
+	} else if len(c.wrote) == 0 && len(c.readBy) == 0 {
+		return // spawner, nothing recorded since the last join
+	}
+	if fr.fn.Pkg != nil && strings.Contains(fr.fn.Pkg.Pkg.Path(), "/zzverif/") {
 		return
 	}
-	gid := c.gidStack[len(c.gidStack)-1]
 	var locks []*value
 	for l, n := range c.held {
 		if n > 0 {
 			locks = append(locks, l)
 		}
 	}
-	if c.wrote == nil {
-		c.wrote = map[interface{}]raceRec{}
-	}
-	if prev, ok := c.wrote[addr]; ok && prev.gid != gid {
-		common := false
+	conflict := func(prev raceRec) bool {
+		if prev.gid == gid {
+			return false
+		}
 		for _, a := range prev.locks {
 			for _, b := range locks {
 				if a == b {
-					common = true
+					return false
 				}
 			}
 		}
-		if !common {
-			c.lastPanicSite = "RACE:" + fr.fn.String()
-			c.lastPanicStack = fr.stack()
-			panic(targetPanic{"data race: a variable shared by goroutines of one batch is written by two of them with no common lock held (first write in " + prev.site + ", second in " + fr.fn.String() + ")"})
+		return true
+	}
+	report := func(prev raceRec, prevKind string) {
+		kind := "read"
+		if write {
+			kind = "written"
+		}
+		c.lastPanicSite = "RACE:" + fr.fn.String()
+		c.lastPanicStack = fr.stack()
+		panic(targetPanic{"data race: a variable shared by the goroutines of one batch is " + prevKind + " in " + prev.site + " and " + kind + " in " + fr.fn.String() + " by another goroutine with no common lock held"})
+	}
+	if prev, ok := c.wrote[addr]; ok && conflict(prev) {
+		report(prev, "written")
+	}
+	if write {
+		for _, prev := range c.readBy[addr] {
+			if conflict(prev) {
+				report(prev, "read")
+			}
 		}
 	}
-	c.wrote[addr] = raceRec{gid: gid, locks: locks, site: fr.fn.String()}
+	if gid == 0 {
+		return // the spawner's accesses are compared, not recorded
+	}
+	rec := raceRec{gid: gid, locks: locks, site: fr.fn.String()}
+	if write {
+		if c.wrote == nil {
+			c.wrote = map[interface{}]raceRec{}
+		}
+		c.wrote[addr] = rec
+		return
+	}
+	if c.readBy == nil {
+		c.readBy = map[interface{}][]raceRec{}
+	}
+	rs := c.readBy[addr]
+	for i := range rs {
+		if rs[i].gid == gid {
+			// keep the weakest lockset of this goroutine
+			var keep []*value
+			for _, a := range rs[i].locks {
+				for _, b := range locks {
+					if a == b {
+						keep = append(keep, a)
+					}
+				}
+			}
+			rs[i].locks = keep
+			return
+		}
+	}
+	c.readBy[addr] = append(rs, rec)
+}
+
+// raceJoin: a sync.WaitGroup.Wait orders everything the joined goroutines did before whatever follows.
+func (c *pathCtx) raceJoin() {
+	c.wrote, c.readBy = nil, nil
 }
